@@ -55,6 +55,34 @@ def run(fx, R, tier, lat_deg=None, heights=None):
         R.undecided('F1', 'ECEFConverter', 'anchor vanished or forward map not readable (toECEF / toWGS84 / EarthEllipsoid(a,b))')
         return
     R.used(fwd['fn'], finv, ell[0])
+    # paths of toECEF that return without evaluating the formulas: a stored result may only be re-used when every input the
+    # formulas depend on is compared with the stored key (member caches survive the call just like statics)
+    X, Y, Z, lat, lon, h = (fwd[k] for k in ('X', 'Y', 'Z', 'lat', 'lon', 'alt'))
+    deps = {s_ for c_ in (X, Y, Z) for s_ in c_.free_symbols if s_ in (lat, lon, h)}
+    for n_, st_ in enumerate(fwd.get('others', [])):
+        desc = ' && '.join(('' if c_[2] else '!') + '(' + c_[0] + ')' for c_ in st_.cond)
+        compared = set()
+        for c_ in st_.cond:
+            e_, pol = c_[1], c_[2]
+            if isinstance(e_, sp.Basic):
+                for at in e_.atoms(sp.Eq, sp.Ne) | ({e_} if isinstance(e_, (sp.Eq, sp.Ne)) else set()):
+                    if (isinstance(at, sp.Eq) and pol) or (isinstance(at, sp.Ne) and not pol):
+                        names_ = [a_ for a_ in at.args if isinstance(a_, sp.Symbol)]
+                        if len(names_) == 2 and any(a_.name.startswith('this.') for a_ in names_):
+                            compared |= {a_ for a_ in names_ if a_ in deps}
+                if isinstance(e_, sp.And) and pol:
+                    for at in e_.args:
+                        if isinstance(at, sp.Eq):
+                            names_ = [a_ for a_ in at.args if isinstance(a_, sp.Symbol)]
+                            if len(names_) == 2 and any(a_.name.startswith('this.') for a_ in names_):
+                                compared |= {a_ for a_ in names_ if a_ in deps}
+        missing = sorted(s_.name for s_ in deps - compared)
+        if missing:
+            R.violated('F6', 'ECEFConverter::toECEF:stale-result', 'the path [%s] returns a stored result without evaluating the formulas; they depend on %s, but the path compares only %s with the stored key: '
+                       'two calls that differ in `%s` alone get the same point (the stored result survives the call)' % (desc, sorted(s_.name for s_ in deps), sorted(s_.name for s_ in compared) or 'nothing', missing[0]),
+                       fx.rel(fwd['fn']['loc']), 'E-PURE')
+        else:
+            R.undecided('F6', 'ECEFConverter::toECEF:path%d' % n_, 'a path [%s] returns without evaluating the formulas (it compares every input; whether the stored result belongs to the stored key is not decided)' % desc)
     from .. import epure
     for f_ in (fwd['fn'], finv):
         epure.check(fx, R, 'F6', f_, 'ECEFConverter::%s' % f_['name'], fx.rel(f_['loc']), reader_kw={'call_hook': vec.hook})
